@@ -3,6 +3,7 @@ pub mod common;
 pub mod c01;
 pub mod c02;
 pub mod c08;
+pub mod c09;
 pub mod c11;
 
 pub fn lookup(id: &str) -> Option<(&'static str, fn(&mut Ctx))> {
@@ -10,6 +11,7 @@ pub fn lookup(id: &str) -> Option<(&'static str, fn(&mut Ctx))> {
         "C01" => ("C01", c01::run as fn(&mut Ctx)),
         "C02" => ("C02", c02::run as fn(&mut Ctx)),
         "C08" => ("C08", c08::run as fn(&mut Ctx)),
+        "C09" => ("C09", c09::run as fn(&mut Ctx)),
         "C11" => ("C11", c11::run as fn(&mut Ctx)),
         _ => return None,
     })
